@@ -387,6 +387,9 @@ func (w *World) afterStep(primaryTag string) {
 			w.rebuild(i) // state after a panic is unspecified; the panic itself was recorded
 			continue
 		}
+		// well-formedness is looked at before the contents check gets a chance to rebuild the
+		// object: an ill-formed chunk often has wrong contents too, and both properties must see it
+		w.validate32(i)
 		w.checkOutput(i, primaryTag)
 	}
 	// 2. bystanders: every other live bitmap still equals its model (C07 / C08 for region-backed)
@@ -421,7 +424,6 @@ func (w *World) afterStep(primaryTag string) {
 	w.regionScan()
 	// 5. well-formedness (C09) and size bound (C14) of outputs
 	for _, i := range outs {
-		w.validate32(i)
 		w.sizeBound32(i)
 	}
 	w.X.afterStep(primaryTag)
